@@ -192,6 +192,11 @@ def check_format_input_orientation(inp, init_format=False):
         inp = Rotation.from_quat(inpQ)
     else:
         inpQ = inp.as_quat()
+        if inpQ.size == 0:
+            raise MagpylibBadUserInput(
+                "Input parameter `orientation` must hold at least one rotation.\n"
+                "Instead received a `Rotation` object of length 0."
+            )
     # return
     if init_format:
         return np.reshape(inpQ, (-1, 4))
@@ -342,6 +347,11 @@ def check_format_input_vector(
             f"Instead received array_like with shape {inp.shape}."
         ),
     )
+    if inp.size == 0:
+        raise MagpylibBadUserInput(
+            f"Input parameter `{sig_name}` must be {sig_type}.\n"
+            f"Instead received an empty array_like with shape {inp.shape}."
+        )
     if isinstance(reshape, tuple):
         return np.reshape(inp, reshape)
 
